@@ -12,7 +12,7 @@
    state by C04_cost_checker_sound, not by induction over traces.  See docs/C04.md. *)
 From Coq Require Import Lia.
 From Coq Require Import Permutation.
-From Ctg Require Import Base Net BaseFacts NetFacts TreeState TreeStateFacts TreeStateInv.
+From Ctg Require Import Base Net BaseFacts NetFacts TreeState TreeStateFacts TreeStateInv TreeStatePre TreeStateMon.
 
 (* utils.MaxCounter: after ANY sequence of add/discard from empty, the counter holds exactly the
    multiset the sequence denotes and max() is the maximum of that multiset (None = -inf = empty) *)
@@ -204,3 +204,31 @@ Theorem C04_slice_unslice_roundtrip_partial : forall n, 2 <= NN n -> NoDup (outp
   mult s1 = mult s2.
 Proof. exact totals_determined. Qed.
 Print Assumptions C04_slice_unslice_roundtrip_partial.
+
+(* ---- round 3: the preconditions are MONITORED ---------------------------------------------- *)
+(* prim_pre_b (Model/TreeStatePre.v) is an executable version of prim_pre; the harness evaluates it
+   inside Coq on every recorded primitive of every trace (mon_ok).  Soundness: *)
+Theorem C04_precondition_checker_sound : forall n, NoDup (output n) ->
+  forall p s, prim_pre_b n p s = true -> prim_pre n p s.
+Proof. exact prim_pre_b_sound. Qed.
+Print Assumptions C04_precondition_checker_sound.
+
+(* hence, with a purely boolean hypothesis on the trace: *)
+Theorem C04_checked_trace_from_fresh_tree : forall n, 2 <= NN n -> NoDup (output n) ->
+  forall tr, pre_trace_b n tr (init_state n) = true -> InvC n (run n tr (init_state n)).
+Proof. exact checked_trace_from_fresh. Qed.
+Print Assumptions C04_checked_trace_from_fresh_tree.
+
+(* non-vacuity: a build, stats, an annealing-style re-creation of the root with PRECOMPUTED cost and
+   size, slicing the output index a (the former defect), sorting the indices, deriving recipes: the
+   boolean precondition holds at every step, so the invariant holds at the end; and a wrong
+   precomputed size is rejected by the monitor *)
+Example C04_checked_trace_nonvacuous :
+  let tr := [PPair [0] [1] None None None; PPair [0;1] [2] None None None; PStats false;
+             PRemoveNode [0;1;2]; PPair [0;1] [2] None (Some 8%Z) (Some 4%Z);
+             PRemoveInd 0 None; PSortInds PrFlops true true false; PGet GEq [0;1;2]; PRemoveInd 2 (Some 1)] in
+  pre_trace_b ex_net tr (init_state ex_net) = true /\
+  cost_inv_b ex_net (run ex_net tr (init_state ex_net)) = true /\
+  prim_pre_b ex_net (PPair [0;1] [2] None (Some 8%Z) (Some 5%Z))
+     (run ex_net [PPair [0] [1] None None None] (init_state ex_net)) = false.
+Proof. vm_compute. repeat split; reflexivity. Qed.
